@@ -196,6 +196,22 @@ func runC01(t *testing.T, s C01Scenario) (res Result) {
 		tr, un := c01Build(s, now, drift)
 		failing := c01Model(tr, un, now, drift)
 
+		// Verify keeps no state between calls: every case first makes one call of a header type that verifies an
+		// embedded header through header.Verify itself and hands the library's own rejection (of a zero header) back,
+		// for a non-adjacent pair - so the outer call marks that rejection as soft. Nothing of that may stick.
+		{
+			inner := (&vh.Header{Chain: "chain-P", H: 3, T: now.Add(-time.Hour).UnixNano(), Prev: []byte("i"), Span: 1}).Seal()
+			pt := (&vh.Header{Chain: "chain-P", H: 10, T: now.Add(-time.Minute).UnixNano(), Prev: []byte("p"), Span: 1}).Seal()
+			pu := (&vh.Header{Chain: "chain-P", H: 20, T: now.Add(-time.Second).UnixNano(), Prev: []byte("q"), Span: 1}).Seal()
+			pt.VerifyFn = func(*vh.Header) error { return header.Verify(inner, nil) }
+			perr := header.Verify(pt, pu)
+			var pve *header.VerifyError
+			if perr == nil || !errors.As(perr, &pve) || !errors.Is(perr, header.ErrZeroHeader) || !pve.SoftFailure {
+				res.failf("prelude: a non-adjacent pair whose type-level Verify returns the rejection of an embedded zero header came back as %v (want a soft *VerifyError wrapping ErrZeroHeader)", perr)
+				return
+			}
+		}
+
 		var err error
 		func() {
 			defer func() {
